@@ -21,8 +21,8 @@ Definition success (o : observed) : bool :=
 Ltac unfold_defs :=
   unfold authenticate, p_token, p_code, p_refresh, p_cc, p_te, p_bearer, p_device, p_introspect, p_revoke,
     p_device_authz, l_token, l_with_client, l_parse, l_verify_client, l_introspect, l_revoke, l_device_authz,
-    private_jwt, by_secret, client_id_from_request, device_client_authenticated, secret_check, secret_ok,
-    assertion_ok, bearer_ok, parse_creds, r4, r5, read_grant, visible, seen, src_dispatch_p, src_dispatch_l,
+    private_jwt, by_secret, client_id_from_request, device_client_authenticated, parse_creds, secret_check, cc_secret_check, secret_ok,
+    cc_secret_ok, storage_secret_ok, assertion_opt_ok, assertion_ok, nonempty, bearer_ok, r4, r5, read_grant, visible, seen, src_dispatch_p, src_dispatch_l,
     src_with_client, src_verify_client, src_client, src_artefact, src_device_code_p,
     other_justified, justified, victim_of, by_grant_assertion,
     token_justified, cred_valid, authenticated, introspect_justified, revoke_justified, device_authz_justified,
@@ -52,7 +52,7 @@ Ltac split_goal :=
   cbn; try reflexivity; try discriminate; try congruence.
 
 Ltac open_input i :=
-  destruct i as [r e c rg p g pl]; destruct pl as [gp cp ap]; destruct c as [fpost fpk fref ccc cte cdev];
+  destruct i as [r e c rg p g pl pv]; destruct pl as [gp cp ap]; destruct c as [fpost fpk fref ccc cte cdev];
   destruct rg as [known meth app gs key].
 
 (* ---------------- success is justified *)
@@ -61,10 +61,10 @@ Lemma token_success_justified : forall i,
   i_endpoint i = EToken -> known_gap i = false -> names_other (i_pres i) = false ->
   success (model i) = true -> token_justified (i_cfg i) (i_reg i) (i_pres i) (i_grant i) = true.
 Proof.
-  intro i; open_input i; cbn [i_endpoint i_cfg i_reg i_pres i_grant i_router i_pl].
+  intro i; open_input i; cbn [i_endpoint i_cfg i_reg i_pres i_grant i_router i_pl i_prev].
   all: intros -> Hgap Hno.
-  all: unfold model, known_gap in *; cbn [i_endpoint i_cfg i_reg i_pres i_grant i_router i_pl] in *.
-  all: destruct p as [| |[] ?| |[]|[]|[] []|?|?|?|?|?]; try discriminate Hno; clear Hno.
+  all: unfold model, known_gap in *; cbn [i_endpoint i_cfg i_reg i_pres i_grant i_router i_pl i_prev] in *.
+  all: destruct p as [| |[] ?| |[]|[]| | | |[] []|?|?|?|?|?]; try discriminate Hno; clear Hno.
   all: destruct r, g; cbn in Hgap |- *; destruct meth; cbn in Hgap |- *; split_goal.
 Qed.
 
@@ -75,11 +75,11 @@ Lemma token_gap_still_authenticated : forall i,
   capability (i_cfg i) GDevice = true /\
   cred_valid (i_cfg i) (i_reg i) (i_pres i) true = true.
 Proof.
-  intro i; open_input i; cbn [i_endpoint i_cfg i_reg i_pres i_grant i_router i_pl].
+  intro i; open_input i; cbn [i_endpoint i_cfg i_reg i_pres i_grant i_router i_pl i_prev].
   all: intros -> Hgap Hno.
-  all: unfold model, known_gap in *; cbn [i_endpoint i_cfg i_reg i_pres i_grant i_router i_pl] in *.
+  all: unfold model, known_gap in *; cbn [i_endpoint i_cfg i_reg i_pres i_grant i_router i_pl i_prev] in *.
   all: destruct r, g; try discriminate Hgap.
-  all: destruct p as [| |[] ?| |[]|[]|[] []|?|?|?|?|?]; try discriminate Hno; clear Hno.
+  all: destruct p as [| |[] ?| |[]|[]| | | |[] []|?|?|?|?|?]; try discriminate Hno; clear Hno.
   all: destruct meth; cbn; split_goal; split; reflexivity.
 Qed.
 
@@ -87,9 +87,9 @@ Lemma introspect_success_justified : forall i,
   i_endpoint i = EIntrospect -> names_other (i_pres i) = false ->
   success (model i) = true -> introspect_justified (i_reg i) (i_pres i) = true.
 Proof.
-  intro i; open_input i; cbn [i_endpoint i_cfg i_reg i_pres i_grant i_router i_pl].
-  all: intros -> Hno; unfold model; cbn [i_endpoint i_cfg i_reg i_pres i_grant i_router i_pl] in *.
-  all: destruct p as [| |[] ?| |[]|[]|[] []|?|?|?|?|?]; try discriminate Hno; clear Hno.
+  intro i; open_input i; cbn [i_endpoint i_cfg i_reg i_pres i_grant i_router i_pl i_prev].
+  all: intros -> Hno; unfold model; cbn [i_endpoint i_cfg i_reg i_pres i_grant i_router i_pl i_prev] in *.
+  all: destruct p as [| |[] ?| |[]|[]| | | |[] []|?|?|?|?|?]; try discriminate Hno; clear Hno.
   all: destruct r, meth; cbn; split_goal.
 Qed.
 
@@ -97,9 +97,9 @@ Lemma revoke_success_justified : forall i,
   i_endpoint i = ERevoke -> names_other (i_pres i) = false ->
   success (model i) = true -> revoke_justified (i_reg i) (i_pres i) = true.
 Proof.
-  intro i; open_input i; cbn [i_endpoint i_cfg i_reg i_pres i_grant i_router i_pl].
-  all: intros -> Hno; unfold model; cbn [i_endpoint i_cfg i_reg i_pres i_grant i_router i_pl] in *.
-  all: destruct p as [| |[] ?| |[]|[]|[] []|?|?|?|?|?]; try discriminate Hno; clear Hno.
+  intro i; open_input i; cbn [i_endpoint i_cfg i_reg i_pres i_grant i_router i_pl i_prev].
+  all: intros -> Hno; unfold model; cbn [i_endpoint i_cfg i_reg i_pres i_grant i_router i_pl i_prev] in *.
+  all: destruct p as [| |[] ?| |[]|[]| | | |[] []|?|?|?|?|?]; try discriminate Hno; clear Hno.
   all: destruct r, meth; cbn; split_goal.
 Qed.
 
@@ -107,9 +107,9 @@ Lemma device_authz_success_justified : forall i,
   i_endpoint i = EDeviceAuthz -> names_other (i_pres i) = false ->
   success (model i) = true -> device_authz_justified (i_reg i) (i_pres i) = true.
 Proof.
-  intro i; open_input i; cbn [i_endpoint i_cfg i_reg i_pres i_grant i_router i_pl].
-  all: intros -> Hno; unfold model; cbn [i_endpoint i_cfg i_reg i_pres i_grant i_router i_pl] in *.
-  all: destruct p as [| |[] ?| |[]|[]|[] []|?|?|?|?|?]; try discriminate Hno; clear Hno.
+  intro i; open_input i; cbn [i_endpoint i_cfg i_reg i_pres i_grant i_router i_pl i_prev].
+  all: intros -> Hno; unfold model; cbn [i_endpoint i_cfg i_reg i_pres i_grant i_router i_pl i_prev] in *.
+  all: destruct p as [| |[] ?| |[]|[]| | | |[] []|?|?|?|?|?]; try discriminate Hno; clear Hno.
   all: destruct r, meth; cbn; split_goal.
 Qed.
 
@@ -123,9 +123,9 @@ Lemma refusal_shape_model : forall i,
   | _ => False
   end.
 Proof.
-  intro i; open_input i; unfold model; cbn [i_endpoint i_cfg i_reg i_pres i_grant i_router i_pl].
+  intro i; open_input i; unfold model; cbn [i_endpoint i_cfg i_reg i_pres i_grant i_router i_pl i_prev].
   all: destruct e; [destruct g| | |]; destruct r;
-    destruct p as [| |[] ?| |[]|[]|[] []|?|?|[]|[]|[]], meth; cbn; split_goal.
+    destruct p as [| |[] ?| |[]|[]| | | |[] []|?|?|[]|[]|[]], meth; cbn; split_goal.
   all: try (split; [reflexivity|intro HW; try discriminate HW]); split_goal.
 Qed.
 
@@ -153,8 +153,8 @@ Lemma names_other_model : forall i,
   end.
 Proof.
   intro i; open_input i; cbn [i_pres]; intro Hno.
-  all: destruct p as [| |[] ?| |[]|[]|[] []|?|?|[]|[]|[]]; try discriminate Hno; clear Hno.
-  all: unfold model; cbn [i_endpoint i_cfg i_reg i_pres i_grant i_router i_pl].
+  all: destruct p as [| |[] ?| |[]|[]| | | |[] []|?|?|[]|[]|[]]; try discriminate Hno; clear Hno.
+  all: unfold model; cbn [i_endpoint i_cfg i_reg i_pres i_grant i_router i_pl i_prev].
   all: destruct e; [destruct g| | |]; destruct r; cbn; split_goal; exact I.
 Qed.
 
@@ -175,7 +175,7 @@ Qed.
 
 Definition gap_witness : input :=
   mkInput RProvider EToken (mkCfg true true true true true true)
-          (mkReg true MNone ANative [GCode; GRefresh] false) PIdOnly GDevice (mkPl GPBody InBody InBody).
+          (mkReg true MNone ANative [GCode; GRefresh] false) PIdOnly GDevice (mkPl GPBody InBody InBody) NoPrev.
 
 Lemma spec_model_refuted : exists i, spec i (model i) = false.
 Proof. exists gap_witness. vm_compute. reflexivity. Qed.
@@ -184,19 +184,19 @@ Proof. exists gap_witness. vm_compute. reflexivity. Qed.
 
 (* the full statement for the token endpoint (what the property asks); see C05_token_refuted *)
 Definition token_statement : Prop :=
-  forall r c rg p g pl,
+  forall r c rg p g pl pv,
     names_other p = false ->
-    success (model (mkInput r EToken c rg p g pl)) = true ->
+    success (model (mkInput r EToken c rg p g pl pv)) = true ->
     token_justified c rg p g = true.
 
-Lemma token_partial : forall r c rg p g pl,
+Lemma token_partial : forall r c rg p g pl pv,
   (r = RProvider /\ g = GDevice /\ registered rg GDevice = false -> False) ->
   names_other p = false ->
-  success (model (mkInput r EToken c rg p g pl)) = true ->
+  success (model (mkInput r EToken c rg p g pl pv)) = true ->
   token_justified c rg p g = true.
 Proof.
-  intros r c rg p g pl Hn Hno Hs.
-  apply (token_success_justified (mkInput r EToken c rg p g pl)); [reflexivity| |exact Hno|exact Hs].
+  intros r c rg p g pl pv Hn Hno Hs.
+  apply (token_success_justified (mkInput r EToken c rg p g pl pv)); [reflexivity| |exact Hno|exact Hs].
   unfold known_gap; cbn [i_router i_endpoint i_grant i_reg].
   destruct r; try reflexivity. destruct g; try reflexivity.
   destruct (registered rg GDevice) eqn:E; [reflexivity|].
@@ -207,45 +207,45 @@ Lemma token_refuted : ~ token_statement.
 Proof.
   intro H.
   specialize (H RProvider (mkCfg true true true true true true)
-                (mkReg true MNone ANative [GCode; GRefresh] false) PIdOnly GDevice (mkPl GPBody InBody InBody)).
+                (mkReg true MNone ANative [GCode; GRefresh] false) PIdOnly GDevice (mkPl GPBody InBody InBody) NoPrev).
   vm_compute in H. specialize (H eq_refl eq_refl). discriminate H.
 Qed.
 
-Lemma token_gap : forall c rg p pl,
+Lemma token_gap : forall c rg p pl pv,
   registered rg GDevice = false -> names_other p = false ->
-  success (model (mkInput RProvider EToken c rg p GDevice pl)) = true ->
+  success (model (mkInput RProvider EToken c rg p GDevice pl pv)) = true ->
   c_dev c = true /\ cred_valid c rg p true = true.
 Proof.
-  intros c rg p pl Hn Hno Hs.
-  apply (token_gap_still_authenticated (mkInput RProvider EToken c rg p GDevice pl)); [reflexivity| |exact Hno|exact Hs].
+  intros c rg p pl pv Hn Hno Hs.
+  apply (token_gap_still_authenticated (mkInput RProvider EToken c rg p GDevice pl pv)); [reflexivity| |exact Hno|exact Hs].
   unfold known_gap; cbn. now rewrite Hn.
 Qed.
 
-Lemma introspect_statement : forall r c rg p g pl,
+Lemma introspect_statement : forall r c rg p g pl pv,
   names_other p = false ->
-  success (model (mkInput r EIntrospect c rg p g pl)) = true -> authenticated rg p = true.
-Proof. intros r c rg p g pl. exact (introspect_success_justified (mkInput r EIntrospect c rg p g pl) eq_refl). Qed.
+  success (model (mkInput r EIntrospect c rg p g pl pv)) = true -> authenticated rg p = true.
+Proof. intros r c rg p g pl pv. exact (introspect_success_justified (mkInput r EIntrospect c rg p g pl pv) eq_refl). Qed.
 
-Lemma revoke_statement : forall r c rg p g pl,
+Lemma revoke_statement : forall r c rg p g pl pv,
   names_other p = false ->
-  success (model (mkInput r ERevoke c rg p g pl)) = true ->
+  success (model (mkInput r ERevoke c rg p g pl pv)) = true ->
   authenticated rg p = true \/ (r_known rg = true /\ r_meth rg = MNone /\ identifies p = true).
 Proof.
-  intros r c rg p g pl Hno Hs.
-  pose proof (revoke_success_justified (mkInput r ERevoke c rg p g pl) eq_refl Hno Hs) as H.
+  intros r c rg p g pl pv Hno Hs.
+  pose proof (revoke_success_justified (mkInput r ERevoke c rg p g pl pv) eq_refl Hno Hs) as H.
   cbn [i_reg i_pres] in H. unfold revoke_justified in H.
   apply orb_true_iff in H as [H|H]; [now left|right].
   apply andb_true_iff in H as [H H3]. apply andb_true_iff in H as [H1 H2].
   repeat split; try assumption. now destruct (r_meth rg).
 Qed.
 
-Lemma device_authz_statement : forall r c rg p g pl,
+Lemma device_authz_statement : forall r c rg p g pl pv,
   names_other p = false ->
-  success (model (mkInput r EDeviceAuthz c rg p g pl)) = true ->
+  success (model (mkInput r EDeviceAuthz c rg p g pl pv)) = true ->
   r_known rg = true /\ identifies p = true /\ registered rg GDevice = true.
 Proof.
-  intros r c rg p g pl Hno Hs.
-  pose proof (device_authz_success_justified (mkInput r EDeviceAuthz c rg p g pl) eq_refl Hno Hs) as H.
+  intros r c rg p g pl pv Hno Hs.
+  pose proof (device_authz_success_justified (mkInput r EDeviceAuthz c rg p g pl pv) eq_refl Hno Hs) as H.
   cbn [i_reg i_pres] in H. unfold device_authz_justified in H.
   apply andb_true_iff in H as [H H3]. apply andb_true_iff in H as [H1 H2]. auto.
 Qed.
@@ -308,12 +308,12 @@ Qed.
 (* consequences spelled out for the cases the property text names *)
 
 (* an unknown client gets nothing anywhere *)
-Lemma unknown_client_refused : forall r e c rg p g pl,
-  r_known rg = false -> names_other p = false -> success (model (mkInput r e c rg p g pl)) = false.
+Lemma unknown_client_refused : forall r e c rg p g pl pv,
+  r_known rg = false -> names_other p = false -> success (model (mkInput r e c rg p g pl pv)) = false.
 Proof.
-  intros r e c rg p g pl Hk Hno.
-  destruct (success (model (mkInput r e c rg p g pl))) eqn:Hs; [|reflexivity].
-  assert (Hgap : known_gap (mkInput r e c rg p g pl) = false \/ known_gap (mkInput r e c rg p g pl) = true)
+  intros r e c rg p g pl pv Hk Hno.
+  destruct (success (model (mkInput r e c rg p g pl pv))) eqn:Hs; [|reflexivity].
+  assert (Hgap : known_gap (mkInput r e c rg p g pl pv) = false \/ known_gap (mkInput r e c rg p g pl pv) = true)
     by (destruct (known_gap _); auto).
   destruct Hgap as [Hg|Hg].
   - pose proof (justified_model _ Hg Hno Hs) as Hj. unfold justified in Hj; cbn [i_endpoint i_cfg i_reg i_pres i_grant] in Hj.
@@ -326,26 +326,26 @@ Proof.
   - unfold known_gap in Hg; cbn [i_router i_endpoint i_grant i_reg] in Hg.
     destruct r, e, g; try discriminate Hg.
     apply negb_true_iff in Hg.
-    destruct (token_gap c rg p pl Hg Hno Hs) as [_ Hc]. unfold cred_valid in Hc. rewrite Hk in Hc. discriminate Hc.
+    destruct (token_gap c rg p pl pv Hg Hno Hs) as [_ Hc]. unfold cred_valid in Hc. rewrite Hk in Hc. discriminate Hc.
 Qed.
 
 (* a secret-registered client that presents neither its secret nor a valid assertion gets no
    token and no metadata *)
-Lemma wrong_secret_refused : forall r e c rg p g pl,
+Lemma wrong_secret_refused : forall r e c rg p g pl pv,
   has_secret (r_meth rg) = true -> presents_right_secret p = false -> presents_ok_assertion p = false ->
   e <> EDeviceAuthz -> g <> GBearer ->
-  success (model (mkInput r e c rg p g pl)) = false.
+  success (model (mkInput r e c rg p g pl pv)) = false.
 Proof.
-  intros r e c rg p g pl Hm Hp Ha He Hgb.
+  intros r e c rg p g pl pv Hm Hp Ha He Hgb.
   assert (Hno : names_other p = false) by (destruct p; cbn in *; congruence).
-  destruct (success (model (mkInput r e c rg p g pl))) eqn:Hs; [|reflexivity].
+  destruct (success (model (mkInput r e c rg p g pl pv))) eqn:Hs; [|reflexivity].
   assert (Hcv : forall b, cred_valid c rg p b = false).
   { intro b. unfold cred_valid. rewrite Hp, Ha.
     destruct (r_meth rg); try discriminate Hm; cbn; now rewrite andb_false_r. }
-  destruct (known_gap (mkInput r e c rg p g pl)) eqn:Hg.
+  destruct (known_gap (mkInput r e c rg p g pl pv)) eqn:Hg.
   - unfold known_gap in Hg; cbn [i_router i_endpoint i_grant i_reg] in Hg.
     destruct r, e, g; try discriminate Hg. apply negb_true_iff in Hg.
-    destruct (token_gap c rg p pl Hg Hno Hs) as [_ Hc]. rewrite Hcv in Hc. discriminate Hc.
+    destruct (token_gap c rg p pl pv Hg Hno Hs) as [_ Hc]. rewrite Hcv in Hc. discriminate Hc.
   - pose proof (justified_model _ Hg Hno Hs) as Hj. unfold justified in Hj; cbn [i_endpoint i_cfg i_reg i_pres i_grant] in Hj.
     destruct e; try congruence.
     + unfold token_justified in Hj. rewrite Hcv in Hj.
@@ -358,41 +358,82 @@ Qed.
 
 (* a grant that is not registered for the client yields no token (outside the recorded gap),
    and no device code *)
-Lemma unregistered_grant_refused : forall r c rg p g pl,
+Lemma unregistered_grant_refused : forall r c rg p g pl pv,
   registered rg g = false -> g <> GBearer -> (r = RProvider /\ g = GDevice -> False) ->
   names_other p = false ->
-  success (model (mkInput r EToken c rg p g pl)) = false.
+  success (model (mkInput r EToken c rg p g pl pv)) = false.
 Proof.
-  intros r c rg p g pl Hn Hb Hgap Hno.
-  destruct (success (model (mkInput r EToken c rg p g pl))) eqn:Hs; [|reflexivity].
+  intros r c rg p g pl pv Hn Hb Hgap Hno.
+  destruct (success (model (mkInput r EToken c rg p g pl pv))) eqn:Hs; [|reflexivity].
   assert (Hj : token_justified c rg p g = true).
-  { apply (token_partial r c rg p g pl); [|exact Hno|exact Hs]. intros [H1 [H2 _]]. now apply Hgap. }
+  { apply (token_partial r c rg p g pl pv); [|exact Hno|exact Hs]. intros [H1 [H2 _]]. now apply Hgap. }
   unfold token_justified in Hj. rewrite Hn in Hj.
   destruct g; try congruence; rewrite ?andb_false_r in Hj; cbn in Hj; discriminate.
 Qed.
 
-Lemma unregistered_device_grant_no_device_code : forall r c rg p g pl,
+Lemma unregistered_device_grant_no_device_code : forall r c rg p g pl pv,
   registered rg GDevice = false -> names_other p = false ->
-  success (model (mkInput r EDeviceAuthz c rg p g pl)) = false.
+  success (model (mkInput r EDeviceAuthz c rg p g pl pv)) = false.
 Proof.
-  intros r c rg p g pl Hn Hno.
-  destruct (success (model (mkInput r EDeviceAuthz c rg p g pl))) eqn:Hs; [|reflexivity].
-  destruct (device_authz_statement r c rg p g pl Hno Hs) as [_ [_ H]]. congruence.
+  intros r c rg p g pl pv Hn Hno.
+  destruct (success (model (mkInput r EDeviceAuthz c rg p g pl pv))) eqn:Hs; [|reflexivity].
+  destruct (device_authz_statement r c rg p g pl pv Hno Hs) as [_ [_ H]]. congruence.
 Qed.
 
 (* a disabled grant (provider flag or storage capability off) yields no token *)
-Lemma disabled_grant_refused : forall r c rg p g pl,
+Lemma disabled_grant_refused : forall r c rg p g pl pv,
   capability c g = false -> names_other p = false ->
-  success (model (mkInput r EToken c rg p g pl)) = false.
+  success (model (mkInput r EToken c rg p g pl pv)) = false.
 Proof.
-  intros r c rg p g pl Hc Hno.
-  destruct (success (model (mkInput r EToken c rg p g pl))) eqn:Hs; [|reflexivity].
-  destruct (known_gap (mkInput r EToken c rg p g pl)) eqn:Hg.
+  intros r c rg p g pl pv Hc Hno.
+  destruct (success (model (mkInput r EToken c rg p g pl pv))) eqn:Hs; [|reflexivity].
+  destruct (known_gap (mkInput r EToken c rg p g pl pv)) eqn:Hg.
   - unfold known_gap in Hg; cbn [i_router i_endpoint i_grant i_reg] in Hg.
     destruct r, g; try discriminate Hg. apply negb_true_iff in Hg.
-    destruct (token_gap c rg p pl Hg Hno Hs) as [Hd _]. cbn in Hc. congruence.
-  - pose proof (token_success_justified (mkInput r EToken c rg p g pl) eq_refl Hg Hno Hs) as Hj. cbn [i_cfg i_reg i_pres i_grant] in Hj.
+    destruct (token_gap c rg p pl pv Hg Hno Hs) as [Hd _]. cbn in Hc. congruence.
+  - pose proof (token_success_justified (mkInput r EToken c rg p g pl pv) eq_refl Hg Hno Hs) as Hj. cbn [i_cfg i_reg i_pres i_grant] in Hj.
     unfold token_justified in Hj. rewrite Hc in Hj. destruct g; cbn in *; discriminate.
+Qed.
+
+(* No guard keeps state between requests: the answer does not depend on what the provider
+   served before (the correspondence run sends a fully credentialed request of a third client
+   first and compares with this model). *)
+Lemma history_independent : forall r e c rg p g pl pv pv',
+  model (mkInput r e c rg p g pl pv) = model (mkInput r e c rg p g pl pv').
+Proof. reflexivity. Qed.
+
+(* The storage contract lets the EMPTY secret match a client without a stored secret
+   ([storage_secret_ok rg SEmpty = r_known rg] for none / private_key_jwt clients).  Still such a
+   client gets nothing that needs authentication out of an empty or half-sent credential. *)
+Definition hollow (p : pres) : bool :=
+  match p with
+  | PIdOnly | PBasic SEmpty _ | PPost SEmpty | PBoth SEmpty SEmpty | PAssertTypeOnly => true
+  | _ => false
+  end.
+
+Lemma storage_accepts_empty_secret : forall rg,
+  r_known rg = true -> has_secret (r_meth rg) = false -> storage_secret_ok rg SEmpty = true.
+Proof. intros rg Hk Hs. unfold storage_secret_ok. now rewrite Hk, Hs. Qed.
+
+Lemma hollow_credential_refused : forall r e c rg p g pl pv,
+  hollow p = true ->
+  e = EIntrospect \/ (e = EToken /\ (g = GTE \/ g = GCC)) ->
+  success (model (mkInput r e c rg p g pl pv)) = false.
+Proof.
+  intros r e c rg p g pl pv Hh He.
+  destruct (success (model (mkInput r e c rg p g pl pv))) eqn:Hs; [|reflexivity].
+  assert (Hno : names_other p = false) by (destruct p; try discriminate Hh; reflexivity).
+  assert (Hp : presents_right_secret p = false)
+    by (destruct p as [| |[] ?| |[]|[]| | | |[] []|?|?|?|?|?]; try discriminate Hh; reflexivity).
+  assert (Ha : presents_ok_assertion p = false) by (destruct p; try discriminate Hh; reflexivity).
+  destruct He as [->|[-> Hg]].
+  - pose proof (introspect_statement r c rg p g pl pv Hno Hs) as H.
+    unfold authenticated in H. rewrite Hp, Ha, !andb_false_r in H. destruct (r_known rg); discriminate H.
+  - assert (Hj : token_justified c rg p g = true).
+    { apply (token_partial r c rg p g pl pv); [|exact Hno|exact Hs].
+      intros [_ [H2 _]]. destruct Hg; congruence. }
+    unfold token_justified, cred_valid in Hj. rewrite Hp, Ha in Hj.
+    destruct Hg; subst g; destruct (r_meth rg); cbn in Hj; rewrite ?andb_false_r in Hj; discriminate Hj.
 Qed.
 
 (* ---------------- non-vacuity: success is reachable on every endpoint and router *)
@@ -402,37 +443,37 @@ Definition all_on := mkCfg true true true true true true.
 
 Example token_nonvacuous :
   forallb (fun r => forallb (fun g =>
-    success (model (mkInput r EToken all_on (mkReg true MBasic AWeb all_grants true) (PBasic SRight true) g std_pl)))
+    success (model (mkInput r EToken all_on (mkReg true MBasic AWeb all_grants true) (PBasic SRight true) g std_pl NoPrev)))
     [GCode; GRefresh; GCC; GBearer; GTE; GDevice]) [RProvider; RLegacy] = true.
 Proof. vm_compute. reflexivity. Qed.
 
 Example token_nonvacuous_pkjwt_public :
   forallb (fun r =>
-    success (model (mkInput r EToken all_on (mkReg true MPKJWT AWeb all_grants true) (PAssert AOk) GCode std_pl))
-    && success (model (mkInput r EToken all_on (mkReg true MNone ANative all_grants false) PIdOnly GRefresh std_pl))
-    && success (model (mkInput r EToken all_on (mkReg true MPost AWeb all_grants false) (PPost SRight) GCode std_pl)))
+    success (model (mkInput r EToken all_on (mkReg true MPKJWT AWeb all_grants true) (PAssert AOk) GCode std_pl NoPrev))
+    && success (model (mkInput r EToken all_on (mkReg true MNone ANative all_grants false) PIdOnly GRefresh std_pl NoPrev))
+    && success (model (mkInput r EToken all_on (mkReg true MPost AWeb all_grants false) (PPost SRight) GCode std_pl NoPrev)))
     [RProvider; RLegacy] = true.
 Proof. vm_compute. reflexivity. Qed.
 
 Example other_endpoints_nonvacuous :
   forallb (fun r => forallb (fun e =>
-    success (model (mkInput r e all_on (mkReg true MBasic AWeb all_grants true) (PBasic SRight false) GMissing std_pl)))
+    success (model (mkInput r e all_on (mkReg true MBasic AWeb all_grants true) (PBasic SRight false) GMissing std_pl NoPrev)))
     [EIntrospect; ERevoke; EDeviceAuthz]) [RProvider; RLegacy] = true.
 Proof. vm_compute. reflexivity. Qed.
 
 Example refusal_nonvacuous :
-  model (mkInput RLegacy EToken all_on (mkReg true MBasic AWeb all_grants true) (PBasic SWrong false) GCode std_pl)
+  model (mkInput RLegacy EToken all_on (mkReg true MBasic AWeb all_grants true) (PBasic SWrong false) GCode std_pl NoPrev)
   = ORes S4 EInvalidClient false false WNone.
 Proof. vm_compute. reflexivity. Qed.
 
 (* cross-client requests: X's valid credential with Y's id and Y's artefact acts for X or not at all *)
 Example cross_nonvacuous :
   let x := mkReg true MBasic AWeb all_grants true in
-  model (mkInput RProvider ERevoke all_on x (PXBasic MBasic) GMissing std_pl) = ORes S4 EInvalidClient false false WNone
-  /\ model (mkInput RLegacy EToken all_on x (PXBasic MBasic) GCode std_pl) = ORes S4 EInvalidGrant false false WNone
-  /\ model (mkInput RProvider EToken all_on x (PXAssert MBasic) GCC std_pl) = ORes S4 EInvalidClient false false WNone
-  /\ model (mkInput RLegacy EToken all_on x (PXBasic MBasic) GCC std_pl) = ORes S2 ENone true false WSelf
-  /\ model (mkInput RProvider EIntrospect all_on x (PXAssert MBasic) GMissing std_pl) = ORes S2 ENone false false WNone.
+  model (mkInput RProvider ERevoke all_on x (PXBasic MBasic) GMissing std_pl NoPrev) = ORes S4 EInvalidClient false false WNone
+  /\ model (mkInput RLegacy EToken all_on x (PXBasic MBasic) GCode std_pl NoPrev) = ORes S4 EInvalidGrant false false WNone
+  /\ model (mkInput RProvider EToken all_on x (PXAssert MBasic) GCC std_pl NoPrev) = ORes S4 EInvalidClient false false WNone
+  /\ model (mkInput RLegacy EToken all_on x (PXBasic MBasic) GCC std_pl NoPrev) = ORes S2 ENone true false WSelf
+  /\ model (mkInput RProvider EIntrospect all_on x (PXAssert MBasic) GMissing std_pl NoPrev) = ORes S2 ENone false false WNone.
 Proof. vm_compute. repeat split; reflexivity. Qed.
 
 (* where parameters travel: a device_code in the URL query is not read by the Provider router;
@@ -442,17 +483,17 @@ Proof. vm_compute. repeat split; reflexivity. Qed.
 Example placement_nonvacuous :
   let x := mkReg true MBasic AWeb all_grants true in
   let nogrant := mkReg true MBasic AWeb [GCode] true in
-  model (mkInput RProvider EToken all_on x (PBasic SRight false) GDevice (mkPl GPBody InBody InQuery))
+  model (mkInput RProvider EToken all_on x (PBasic SRight false) GDevice (mkPl GPBody InBody InQuery) NoPrev)
     = ORes S4 EAccessDenied false false WNone
-  /\ model (mkInput RLegacy EToken all_on x (PBasic SRight false) GDevice (mkPl GPQuery InQuery InQuery))
+  /\ model (mkInput RLegacy EToken all_on x (PBasic SRight false) GDevice (mkPl GPQuery InQuery InQuery) NoPrev)
     = ORes S2 ENone true false WSelf
-  /\ model (mkInput RLegacy EToken all_on nogrant (PBasic SRight false) GTE (mkPl GPQuery InBody InBody))
+  /\ model (mkInput RLegacy EToken all_on nogrant (PBasic SRight false) GTE (mkPl GPQuery InBody InBody) NoPrev)
     = ORes S4 EUnauthorizedClient false false WNone
-  /\ model (mkInput RLegacy EToken all_on x (PXDup MBasic) GCode std_pl)
+  /\ model (mkInput RLegacy EToken all_on x (PXDup MBasic) GCode std_pl NoPrev)
     = ORes S4 EInvalidClient false false WNone
-  /\ model (mkInput RLegacy EToken all_on (mkReg true MPKJWT AWeb all_grants true) (PXAssert MPKJWT) GCode std_pl)
+  /\ model (mkInput RLegacy EToken all_on (mkReg true MPKJWT AWeb all_grants true) (PXAssert MPKJWT) GCode std_pl NoPrev)
     = ORes S4 EInvalidGrant false false WNone
-  /\ model (mkInput RLegacy EToken all_on x (PXPost MNone) GCode std_pl)
+  /\ model (mkInput RLegacy EToken all_on x (PXPost MNone) GCode std_pl NoPrev)
     = ORes S2 ENone true false WOther.
 Proof. vm_compute. repeat split; reflexivity. Qed.
 
